@@ -140,7 +140,7 @@ impl Check for C06 {
     }
     fn assumptions(&self) -> Vec<String> {
         vec![
-            "format as in DESIGN.md Appendix A.6; Latin-1 text drawn from 20-7e and a0-ff (bytes 80-9f, where windows-1252 and ISO-8859-1 differ, are not generated); a UCS-2 string whose first unit has low byte 01 is not generated (documented ambiguity); no truncated colour escapes; no NUL inside text".into(),
+            "format as in DESIGN.md Appendix A.6; Latin-1 text drawn from 20-7e and a0-ff (bytes 80-9f, where windows-1252 and ISO-8859-1 differ, are not generated); a UCS-2 string whose first unit has low byte 01 is not generated (documented ambiguity); no truncated colour escapes; no NUL inside text; the stray 01 byte some games put between the length byte and UCS-2 data (the reader documents that it skips it) is sent in a quarter of the random UCS-2 strings and at every second position of the sweep".into(),
             "server_info.num_players equals the number of players listed or exceeds it (a server that lists more players than it announces is inconsistent)".into(),
         ]
     }
@@ -162,6 +162,9 @@ impl Check for C06 {
                 pad_to(&mut cx.rng, &mut s, total);
                 // the stray 01 byte of some games in front of the data: every second position of the sweep
                 s.extra01 = total > 0 && pos % 2 == 1;
+                if s.extra01 {
+                    cx.count("sweep-ucs2-strings-with-the-stray-01-byte");
+                }
                 s
             } else if total == 0 {
                 UStr { units: vec![], ucs2: false, with_nul: false, extra01: false }
@@ -207,6 +210,8 @@ impl Check for C06 {
             _ => cx.rng.usize(0, 30),
         };
         let st = UState::gen(&mut cx.rng, np, nr);
+        let stray = [&st.ip, &st.name, &st.map, &st.game_type].into_iter().chain(st.rules.iter().flat_map(|(k, v)| [k, v])).chain(st.players.iter().map(|p| &p.name)).filter(|u| u.extra01).count();
+        cx.count_n("random-ucs2-strings-with-the-stray-01-byte", stray as u64);
         let (a, b) = (cx.rng.usize(1, 6), cx.rng.usize(1, 6));
         self.run_state(cx, &st, a, b, "random", None);
     }
@@ -217,7 +222,7 @@ impl Check for C06 {
         }
         Ok(())
     }
-    fn extra_coverage(&self, _tier: Tier, m: &Stats) -> Value { json!({"sweep_cases": m.counters.get("sweep-cases"), "sweep_planned": SWEEP, "random_cases": m.counters.get("random-cases")}) }
+    fn extra_coverage(&self, _tier: Tier, m: &Stats) -> Value { json!({"sweep_cases": m.counters.get("sweep-cases"), "sweep_planned": SWEEP, "random_cases": m.counters.get("random-cases"), "ucs2_strings_with_the_stray_01_byte": {"sweep": m.counters.get("sweep-ucs2-strings-with-the-stray-01-byte"), "random": m.counters.get("random-ucs2-strings-with-the-stray-01-byte")}}) }
 }
 
 fn deco_cost(d: Deco) -> usize {
